@@ -72,9 +72,25 @@ def gen_case(rng, cid, variant=None, k=None):
     total = sum(len(q) for q in seqs)
     lines = [f"case {cid}",
              f"new {v} {mode} {k} {sen} " + " ".join(",".join(map(str, q)) if q else "-" for q in seqs),
-             "init"]
+             init_line(rng, k)]
     lines += ["replace"] * (total + 1)
     return lines
+
+
+def init_line(rng, k):
+    """players are registered (insert_start) in ascending, descending, random order or with
+    player 0 last"""
+    r = rng.random()
+    if r < 0.3 or k == 1:
+        return "init"
+    if r < 0.5:
+        order = list(range(k - 1, -1, -1))
+    elif r < 0.7:
+        order = list(range(1, k)) + [0]
+    else:
+        order = list(range(k))
+        rng.shuffle(order)
+    return "init " + ",".join(map(str, order))
 
 
 def exhaustive_cases(kmax, variants, start_id):
@@ -88,16 +104,40 @@ def exhaustive_cases(kmax, variants, start_id):
             for seqs in itertools.product(seq_choices if guarded else seq_choices[1:], repeat=k):
                 sen = "-" if guarded else "1"
                 total = sum(len(q) for q in seqs)
+                order = ["init", "init " + ",".join(map(str, range(k - 1, -1, -1))),
+                         "init " + ",".join(map(str, list(range(1, k)) + [0]))][cid % 3]
                 cs.append([f"case x{cid}",
                            f"new {v} lt {k} {sen} " + " ".join(",".join(map(str, q)) if q else "-" for q in seqs),
-                           "init"] + ["replace"] * (total + 1))
+                           order] + ["replace"] * (total + 1))
                 cid += 1
     return cs
+
+
+def huge_case(rng, cid, variant, k):
+    """more players than a 14-/16-bit index type can address (`Source`)"""
+    guarded = variant[1] == "g"
+    seqs = []
+    for i in range(k):
+        if guarded and rng.random() < 0.5:
+            seqs.append([])
+        else:
+            seqs.append([5 + rng.randrange(20)])
+    for i in (k - 1, k - 2, k // 2, 3):          # the smallest keys far from player 0
+        seqs[i] = [rng.randrange(3), 1 + rng.randrange(3)]
+    sen = "-" if guarded else "99"
+    if not guarded:
+        seqs = [q + [99] for q in seqs]
+    order = rng.choice(["init", "init " + ",".join(map(str, range(k - 1, -1, -1)))])
+    return [f"case {cid}",
+            f"new {variant} lt {k} {sen} " + " ".join(",".join(map(str, q)) if q else "-" for q in seqs),
+            order] + ["replace"] * 12
 
 
 class C09(flow.Spec):
     pid = "C09"
     case_timeout = 900
+    search_budget_s = 120
+    source_files = ("tlx/container/loser_tree.hpp",)
     harness = dict(name="c09", sources=["c09.cpp"])
     nontrivial_rule = ("a case = one tree (class, comparator, k in 1..17, per-player key sequences, sentinel) with "
                        "init and replace-the-winner until nothing is left; non-trivial when k >= 3, at least 3 "
@@ -115,6 +155,17 @@ class C09(flow.Spec):
                     "hand-written model TlxVerif/Model/C09LoserTree.lean tied to loser_tree.hpp by the line-protocol "
                     "correspondence on the whole losers_ array (harness/c09.cpp, protected members exposed, ASan+UBSan)"]
 
+    extra_lean_sources = ("TlxVerif/Gen/C09Types.lean",)
+
+    def translator(self, ctx):
+        import os, sys
+        from vlib import core
+        out = os.path.join(core.LEAN, "TlxVerif", "Gen", "C09Types.lean")
+        rc, o, e = core.sh([sys.executable, os.path.join(core.VERIF, "tools", "c09_types.py"), core.REPO, out])
+        if rc != 0:
+            return ["translator tools/c09_types.py: " + (e.strip() or o.strip() or f"rc={rc}")]
+        return []
+
     def cases(self, ctx, seed, tier, round_no=0):
         rng = random.Random(seed * 1000003 + round_no * 7 + 9)
         n = 2500 if tier == "quick" else 150000
@@ -128,7 +179,19 @@ class C09(flow.Spec):
             cs.append(gen_case(rng, f"g{cid}")); cid += 1
         if round_no == 0:
             cs += exhaustive_cases(3 if tier == "quick" else 4, VARIANTS, 0)
+            if tier == "quick":
+                cs.append(huge_case(rng, f"h{cid}", "cgs", 65541))
+            else:
+                for k in (16385, 40000, 65541, 70000):
+                    for v in ("cgu", "cgs", "pgs", "cuu", "pus"):
+                        cs.append(huge_case(rng, f"h{cid}", v, k)); cid += 1
         return cs
+
+    def probe_lines(self, case, idx):
+        """a structural disagreement of losers_ is turned into an observable one by draining the tree"""
+        t = case[1].split()
+        total = sum(len(q.split(",")) for q in t[5:] if q != "-")
+        return ["replace"] * (total + 1)
 
     def nontrivial(self, case, answers):
         t = case[1].split()
